@@ -424,7 +424,9 @@ def sweep(kind, n, R, with_blank=False):
 
 class C11(Spec):
     id = 'C11'; engine = 'iter'; harness = 'h_iter'; driver = 'drv_iter'
-    generators = ('Table',)      # Cello/IterMut.lean runs the model of Table.c with the parameters read from src/Table.c
+    # Table: Cello/IterMut.lean runs the model of Table.c with the parameters read from src/Table.c; Iter (translate/g_iter.py): Slice_Arg,
+    # Filter_Iter_*, Table_Iter_Last / _Prev as TERMS interpreted by Cello/IterSrc.lean (C11_slice_arg_source, C11_filter_source, C11_table_*_source)
+    generators = ('Table', 'Iter')
     harness_timeout = 600
     technique = ('Lean 4 proofs (induction over walks, lists, trees, Int arithmetic) about an executable state-machine model of the '
                  'iteration protocol that mirrors every Iter instance of the sources; differential check of that model against the real '
@@ -466,7 +468,13 @@ class C11(Spec):
                   'walk along next, the walk along prev, len and get are lawful after any history; the same for Array over its backing '
                   'store with Reserve_More / Reserve_Less and the memmoves (C11_array_mutated_lawful), for Table after any history of '
                   'set / rem / resize through the representation invariant of C02 (C11_table_mutated_lawful: len = nitems FIELD = number '
-                  'of bindings, keys each once), and for every Tree shape whose nitems field counts its nodes (C11_tree_field_lawful).')
+                  'of bindings, keys each once), and for every Tree shape whose nitems field counts its nodes (C11_tree_field_lawful). '
+                  'EXTRACTED code (translate/g_iter.py -> CelloGen/Iter.lean, interpreter Cello/IterSrc.lean with C\'s conversions): Slice_Arg statement '
+                  'by statement (C11_slice_arg_source: = sliceArg for every n < 2^63 and every int64 argument; C11_slice_arg_source_clamps; '
+                  'C11_slice_stack_source), the four Filter functions as (first call, skipping call) pairs (C11_filter_source, C11_filter_source_lawful: '
+                  'forwards AND backwards), Table_Iter_Last / Table_Iter_Prev as loop programs over a size_t index / a pointer (C11_table_last_source, '
+                  'C11_table_prev_source, C11_table_source_lawful: every slot pattern, down to and including slot 0, never outside the array; '
+                  'C11_table_last_tidied_refuted: the `for (i = nslots-1; i > 0; i--)` rewrite loses slot 0).')
     level_note = ('Trusted: Lean kernel; axioms propext/Quot.sound/Classical.choice; the hand-written model Cello/Iter.lean (validated by the '
                   'harness/driver comparison, which is testing); harness/h_iter.c and lean/Driver/Iter.lean. Inside known-finding territory '
                   '(Slice outside its region, backward walk / negative get over a Zip of unequal inputs, Tuple with a repeated object, get on a '
@@ -502,9 +510,14 @@ class C11(Spec):
             'caller; the disturbing cases (known findings) are in corpus/kf_c11_get_walk.ops and corpus/kf_c11_zip_alias.ops. '
             '(8) `M k e`: mem(obj, $I(k)) on Range (arithmetic), Slice (`while (curr)`), Filter / Map (foreach) — oracle: k occurs in the defined '
             'sequence; `R a b c`: Ranges of few elements at the limits of int64_t whose walks stay inside it (model side: the int64 machine rangeI64). '
+            '(9) extracted code: `S` with arguments at the limits of int64_t and around ±len (oracle: the definition in __int128), Tables with one used slot at every '
+            'position of arrays of 1..9 slots (Table_Iter_Last must find slot 0, Table_Iter_Prev must stop below it), Filters that reject at the front / in the '
+            'middle / at the back of every container kind; the driver walks the model built from the extracted terms as well and prints a difference. '
             'non-trivial = the forward walk yields at least '
             '2 items or a walk does not end with Terminal (exception / worker crash / cap), or mem answers true / leaves the protocol; distinct = distinct op text.')
-    trusted_base = ('lean/Cello/Iter.lean is a hand-written model of src/Iter.c and of the Iter/Len/Get instances of Array, List, Table, Tree, Tuple',
+    trusted_base = ('lean/Cello/Iter.lean is a hand-written model of src/Iter.c and of the Iter/Len/Get instances of Array, List, Table, Tree, Tuple '
+                    '(Slice_Arg, Filter_Iter_Init/Next/Last/Prev, Table_Iter_Last/Prev are ALSO extracted from the source text by translate/g_iter.py and '
+                    'proved equal to the hand model; what is trusted there is the translator\'s reading of the C fragment and the interpreter Cello/IterSrc.lean)',
                     'lean/Cello/IterMut.lean is a hand-written model of the mutating functions of src/List.c (link words) and src/Array.c (backing store); '
                     'mutated Tables go through lean/Cello/Table.lean with the parameters of CelloGen/Table.lean (engine C02), mutated Trees through a plain '
                     'binary-search shape (Tree.c\'s shapes: engine C03)',
@@ -653,6 +666,29 @@ class C11(Spec):
         # (8) mem of the Get instances of src/Iter.c (M); Ranges at the limits of int64_t (R)
         lines = mem_lines(rng, (600 if quick else 12000) * boost) + range64_lines(rng, (300 if quick else 6000) * boost)
         chunked('mem_range64', lines, 500)
+        # (9) the functions whose text is extracted (CelloGen/Iter.lean): Slice_Arg at the limits, Table down-scans, Filter skip loops
+        lines = []
+        ext = [I64MIN, I64MIN + 1, I64MAX, I64MAX - 1]
+        for n in (0, 1, 5, 12):
+            near = [-n - 1, -n, -n + 1, -1, 0, 1, n - 1, n, n + 1]
+            for a in ext + near:
+                for b in ext + near:
+                    lines.append(f'S {n} {a} {b} {rng.choice([I64MAX, I64MIN + 1, 1, -1, 0, 2, -3])}')
+            lines += [f'S {n} {rng.choice(ext)}', f'S {n} _ {rng.choice(ext)} _', f'S {n} {rng.choice(ext)} _ -1']
+        for ns in range(1, 10):          # one used slot at every position; two used slots at every pair of positions
+            for i in range(ns):
+                lines.append('W (table ' + ' '.join(str(10 + j) if j == i else '.' for j in range(ns)) + ')')
+                for j in range(i + 1, ns):
+                    e = '(table ' + ' '.join(str(10 + x) if x in (i, j) else '.' for x in range(ns)) + ')'
+                    lines.append(rng.choice([f'W {e}', f'W (reverse {e})', f'V (filter {e} 2 {rng.randint(0, 1)})', f'W (slice {e} _ _ -1)']))
+            lines.append('W (table ' + ' '.join('.' for _ in range(ns)) + ')')
+        for _ in range((200 if quick else 4000) * boost):      # Filters: where the rejected elements lie
+            n = rng.randint(0, 10); mod = rng.randint(1, 4); res = rng.randrange(mod)
+            b = base(rng, n)
+            lines.append(rng.choice('WV') + ' ' + rng.choice([f'(filter {b} {mod} {res})', f'(filter (reverse {b}) {mod} {res})',
+                                                               f'(reverse (array {" ".join(map(str, ints(rng, n, 0, 9)))}))'.replace(' )', ')'),
+                                                               f'(filter (filter {b} {mod} {res}) {rng.randint(1, 3)} 0)', f'(map (filter {b} {mod} {res}) 1 1)']))
+        chunked('extracted', lines, 1000)
         lines = []
         if registered('kf-c11-slice-mem') or registered('kf-c11-range-mem'):
             lines += mem_lines(rng, (300 if quick else 6000) * boost, slice_absent=registered('kf-c11-slice-mem'), range_neg=registered('kf-c11-range-mem'))
@@ -691,6 +727,22 @@ class C11(Spec):
             if op.startswith('Z '): acc['zip_of_one_object'] = acc.get('zip_of_one_object', 0) + 1
             if op.startswith('M '): acc['mem_calls'] = acc.get('mem_calls', 0) + 1
             if op.startswith('R '): acc['ranges_at_int64_limits'] = acc.get('ranges_at_int64_limits', 0) + 1
+        for l in core.lines_with('I ', c_out):       # branch counters of Slice_Arg printed by the harness
+            for k, v in re.findall(r'(slice_arg_\w+)=(\d+)', l): acc[k] = acc.get(k, 0) + int(v)
+        for op in case.lines:                         # branches of Table_Iter_Last / _Prev and of the backward Filter loops, from the op text
+            m = re.search(r'\(table((?: (?:\.|-?\d+))*)\)', op)
+            if m:
+                sl = m.group(1).split()
+                used = [i for i, x in enumerate(sl) if x != '.']
+                if used:
+                    acc['table_last_answer_in_slot0' if used[-1] == 0 else 'table_last_answer_above_slot0'] = acc.get('table_last_answer_in_slot0' if used[-1] == 0 else 'table_last_answer_above_slot0', 0) + 1
+                    if used[0] == 0: acc['table_prev_stops_below_used_slot0'] = acc.get('table_prev_stops_below_used_slot0', 0) + 1
+                    else: acc['table_prev_scans_holes_down_to_slot0'] = acc.get('table_prev_scans_holes_down_to_slot0', 0) + 1
+                    if any(b - a > 1 for a, b in zip(used, used[1:])): acc['table_prev_skips_holes_between'] = acc.get('table_prev_skips_holes_between', 0) + 1
+                else: acc['table_last_guard_empty'] = acc.get('table_last_guard_empty', 0) + 1
+            if '(filter ' in op: acc['walks_through_filter_both_directions'] = acc.get('walks_through_filter_both_directions', 0) + 1
+        for l in core.lines_with('O ', m_out):
+            if l.startswith('O extracted-code-differs'): acc['extracted_code_differs'] = acc.get('extracted_code_differs', 0) + 1
         for l in core.lines_with('X ', c_out):
             sg = re.search(r'sig=(\S+)', l)
             if sg: acc['oracle_' + sg.group(1)] = acc.get('oracle_' + sg.group(1), 0) + 1
